@@ -225,6 +225,14 @@ def resolved_max_hw(case, labels):
 # framework 1 + 2: *Dataset in memory / with np_chunks=True
 
 
+def _two_epochs(ds, n):
+    """Every index is read twice - a second pass after the whole first pass - and BOTH reads are handed to the
+    comparison: the frameworks must also agree on a re-read (a cache entry corrupted by the first read shows only then)."""
+    first = [ds[i] for i in range(n)]
+    second = [ds[i] for i in range(n)]
+    return first + second
+
+
 def run_dataset(case, slp, np_chunks, scratch):
     import sleap_io as sio
     from sleap_nn.data import custom_datasets as cd
@@ -254,7 +262,7 @@ def run_dataset(case, slp, np_chunks, scratch):
         ds = cd.CenteredInstanceDataset(confmap_head_config=head, crop_hw=tuple(case["crop_hw"]), **common)
     else:
         raise ValueError(m)
-    return [ds[i] for i in range(len(ds))]
+    return _two_epochs(ds, len(ds))
 
 
 # ---------------------------------------------------------------------------------------------------------------
@@ -339,7 +347,7 @@ def handover_bin(case, items, edge_inds, scratch):
     ds = make_streaming(case, edge_inds, input_dir=scratch)
     if len(ds) != len(items):
         raise RuntimeError(f"litdata round trip returned {len(ds)} items for {len(items)} written")
-    return [ds[i] for i in range(len(items))]
+    return _two_epochs(ds, len(items))
 
 
 @contextlib.contextmanager
@@ -369,7 +377,7 @@ def handover_stub(case, items, edge_inds, scratch):
     (PIL image, tensors, ints: value types litdata round-trips unchanged -- an assumption in this mode)."""
     with _stubbed_litdata():
         ds = make_streaming(case, edge_inds, input_dir=items)
-        return [ds[i] for i in range(len(items))]
+        return _two_epochs(ds, len(items))
 
 
 def run_streaming(case, slp, scratch):
